@@ -54,6 +54,27 @@ pub fn build_cache(cfg: &Cfg, clock: &HClock, inst: &Arc<Instance>) -> CacheD<u6
     CacheD::new(builder.build())
 }
 
+/// Builds and uses another cache on the calling thread (see `Prelude`). Returns it if it is to stay alive.
+fn run_prelude(prelude: &Prelude) -> Option<Arc<CacheD<u64, u64>>> {
+    let inst = Instance::new();
+    let clock = HClock::new(BASE_SECS * 1_000_000_000);
+    let cfg = Cfg { counters: prelude.counters, capacity: 64, max_weight: 1_000_000, shards: prelude.shards, cmd_buf: prelude.cmd_buf, pool: prelude.pool, buf: prelude.buf, tick_us: 1000,
+        hash: HashMode::Default, weight_mode: WeightMode::Default, start_ns: 0, noise_readers: 0, prelude: None };
+    let cache = Arc::new(build_cache(&cfg, &clock, &inst));
+    let _ = catch_unwind(AssertUnwindSafe(|| {
+        for key in 0..prelude.keys as u64 {
+            let sent = if key % 3 == 2 { cache.put_with_ttl(1000 + key, key, Duration::from_secs(3600)) } else { cache.put_with_weight(1000 + key, key, 5 + key as i64) };
+            if let Ok(ack) = sent { let _ = await_ack(&ack, &inst); }
+        }
+        for read in 0..prelude.reads as u64 {
+            let _ = cache.get(&(1000 + read % (prelude.keys as u64 + 1)));
+        }
+        if let Ok(ack) = cache.delete(1000) { let _ = await_ack(&ack, &inst); }
+        let _ = cache.total_weight_used();
+    }));
+    if prelude.keep_alive { Some(cache) } else { let _ = catch_unwind(AssertUnwindSafe(|| cache.shutdown())); None }
+}
+
 pub const NOISE_KEYS: [u8; 3] = [240, 241, 242];
 
 /// Background readers of dedicated keys (C06 under contention): they keep the pool, the hand-over channel and the
@@ -111,6 +132,8 @@ struct PendingCmd {
 }
 
 pub struct Exec {
+    /// the cache of the prelude, if it stays alive beside the cache under test
+    prelude_cache: Option<Arc<CacheD<u64, u64>>>,
     pub cfg: Cfg,
     pub policy: Policy,
     pub cache: Arc<CacheD<u64, u64>>,
@@ -163,8 +186,10 @@ impl Exec {
         inst.enable_trace(true);
         let start = BASE_SECS * 1_000_000_000 + cfg.start_ns;
         let clock = HClock::new(start);
+        let prelude_cache = cfg.prelude.as_ref().and_then(run_prelude);
         let cache = Arc::new(build_cache(cfg, &clock, &inst));
         Exec {
+            prelude_cache,
             noise: None,
             cfg: cfg.clone(),
             policy: policy.clone(),
